@@ -86,56 +86,58 @@ def _task_a(task):
             ro = set(RO_ALWAYS) | (set(RO_KEYS_ONLY) if iskey else set())
             for t in ALL_TYPES:
                 cur = before.get(t)
-                newv = different(t, cur)
-                an = C.CKA_NAMES.get(t, hex(t))
-                for shape in ("alone", "after-label"):
-                    T = ([(C.CKA_LABEL, b"subject")] if shape == "after-label" else []) + [(t, newv)]
-                    # --- C_SetAttributeValue
-                    d0 = sh.depth
-                    sh.snap()
-                    try:
-                        r = p.SetAttributeValue(s, h, T)
-                        ctx.count("set_cases")
-                        after = _read(p, s, h, [t])
-                        if t in ro or t in RO_SET_ONLY:
-                            ctx.count("readonly_set_cases")
-                            if r["rv"] == 0 and t in before:
-                                V("C08|set|read-only-attribute-accepted|%s|%s" % (an, kind), {"template": shape})
-                            if after.get(t) != before.get(t):
-                                V("C08|set|read-only-attribute-changed|%s|%s" % (an, kind), {"before": before.get(t), "after": after.get(t), "rv": r["rv"]})
-                        if t in HISTORY and r["rv"] == 0:
-                            V("C08|set|history-attribute-accepted|%s|%s" % (an, kind), {"template": shape})
-                        ctx.count("set_ok" if r["rv"] == 0 else "set_refused")
-                    finally:
-                        sh.unwind(d0)
-                    # --- C_CopyObject
-                    sh.snap()
-                    try:
-                        r = p.CopyObject(s, h, T)
-                        ctx.count("copy_cases")
-                        if r["rv"] == 0 and r.get("h"):
-                            cv = _read(p, s, r["h"], [t])
-                            if t in ro and t in before:
-                                if cv.get(t) != before.get(t):
-                                    V("C08|copy|read-only-attribute-changed-in-copy|%s|%s" % (an, kind), {"source": before.get(t), "copy": cv.get(t)})
-                                else:
-                                    V("C08|copy|read-only-attribute-accepted|%s|%s" % (an, kind), {"template": shape})
-                            if t in HISTORY:
-                                V("C08|copy|history-attribute-accepted|%s|%s" % (an, kind), {"template": shape})
-                            if t == C.CKA_PRIVATE and before.get(t) is True and cv.get(t) is False:
-                                V("C08|copy|private-object-copied-to-public|%s" % kind, {})
-                            ctx.count("copy_ok")
-                        else:
-                            ctx.count("copy_refused")
-                        # the source must be untouched by a copy in any case
-                        if _read(p, s, h, [t]).get(t) != before.get(t):
-                            V("C08|copy|source-attribute-changed|%s|%s" % (an, kind), {})
-                    finally:
-                        sh.unwind(d0)
+                # besides the canonical value also CK_BBOOL values other than 0/1 where the new value is "true" (a guard that compares with CK_TRUE must not let them pass)
+                for newv in [different(t, cur)] + ([b"\x02", b"\xff"] if (t in BOOL_ATTRS and different(t, cur) is True) else []):
+                    an = C.CKA_NAMES.get(t, hex(t))
+                    for shape in ("alone", "after-label"):
+                        T = ([(C.CKA_LABEL, b"subject")] if shape == "after-label" else []) + [(t, newv)]
+                        # --- C_SetAttributeValue
+                        d0 = sh.depth
+                        sh.snap()
+                        try:
+                            r = p.SetAttributeValue(s, h, T)
+                            ctx.count("set_cases")
+                            after = _read(p, s, h, [t])
+                            if t in ro or t in RO_SET_ONLY:
+                                ctx.count("readonly_set_cases")
+                                if r["rv"] == 0 and t in before:
+                                    V("C08|set|read-only-attribute-accepted|%s|%s" % (an, kind), {"template": shape})
+                                if after.get(t) != before.get(t):
+                                    V("C08|set|read-only-attribute-changed|%s|%s" % (an, kind), {"before": before.get(t), "after": after.get(t), "rv": r["rv"]})
+                            if t in HISTORY and r["rv"] == 0:
+                                V("C08|set|history-attribute-accepted|%s|%s" % (an, kind), {"template": shape})
+                            ctx.count("set_ok" if r["rv"] == 0 else "set_refused")
+                        finally:
+                            sh.unwind(d0)
+                        # --- C_CopyObject
+                        sh.snap()
+                        try:
+                            r = p.CopyObject(s, h, T)
+                            ctx.count("copy_cases")
+                            if r["rv"] == 0 and r.get("h"):
+                                cv = _read(p, s, r["h"], [t])
+                                if t in ro and t in before:
+                                    if cv.get(t) != before.get(t):
+                                        V("C08|copy|read-only-attribute-changed-in-copy|%s|%s" % (an, kind), {"source": before.get(t), "copy": cv.get(t)})
+                                    else:
+                                        V("C08|copy|read-only-attribute-accepted|%s|%s" % (an, kind), {"template": shape})
+                                if t in HISTORY:
+                                    V("C08|copy|history-attribute-accepted|%s|%s" % (an, kind), {"template": shape})
+                                if t == C.CKA_PRIVATE and before.get(t) is True and cv.get(t) is False:
+                                    V("C08|copy|private-object-copied-to-public|%s" % kind, {})
+                                ctx.count("copy_ok")
+                            else:
+                                ctx.count("copy_refused")
+                            # the source must be untouched by a copy in any case
+                            if _read(p, s, h, [t]).get(t) != before.get(t):
+                                V("C08|copy|source-attribute-changed|%s|%s" % (an, kind), {})
+                        finally:
+                            sh.unwind(d0)
             # clause 4: CKA_TRUSTED = true by the normal user, any operation kind
-            for opn, line in (("set", "C_SetAttributeValue s=%d o=%d tpl=%s" % (s, h, tpl([(C.CKA_TRUSTED, True)]))),
-                              ("copy", "C_CopyObject s=%d o=%d tpl=%s" % (s, h, tpl([(C.CKA_TRUSTED, True)]))),
-                              ("create", "C_CreateObject s=%d tpl=%s" % (s, tpl(F.template(kind, token=token, private=True, label=b"t2", extra=[(C.CKA_TRUSTED, True)]))))):
+            for opn, line in [(o_, l_ % tpl(t_(tv_))) for tv_ in (True, b"\x02", b"\xff") for o_, l_, t_ in (
+                                  ("set", "C_SetAttributeValue s=%d o=%d tpl=%%s" % (s, h), lambda v: [(C.CKA_TRUSTED, v)]),
+                                  ("copy", "C_CopyObject s=%d o=%d tpl=%%s" % (s, h), lambda v: [(C.CKA_TRUSTED, v)]),
+                                  ("create", "C_CreateObject s=%d tpl=%%s" % s, lambda v: F.template(kind, token=token, private=True, label=b"t2", extra=[(C.CKA_TRUSTED, v)])))]:
                 d0 = sh.depth
                 sh.snap()
                 try:
